@@ -284,6 +284,9 @@ func (caller debugCaller) FuncDocs() *slip.FuncDoc {
 type logCaller struct{}
 
 func (caller logCaller) Call(s *slip.Scope, args slip.List, depth int) slip.Object {
+	if len(args) < 2 {
+		slip.ErrorPanic(s, depth, "Too few arguments to logger :log. At least 2 expected but got %d.", len(args))
+	}
 	level := 0
 	switch ta := args[0].(type) {
 	case slip.Fixnum:
@@ -384,7 +387,10 @@ func (caller setOutCaller) FuncDocs() *slip.FuncDoc {
 
 type writeCaller struct{}
 
-func (caller writeCaller) Call(s *slip.Scope, args slip.List, _ int) slip.Object {
+func (caller writeCaller) Call(s *slip.Scope, args slip.List, depth int) slip.Object {
+	if len(args) < 1 {
+		slip.ErrorPanic(s, depth, "Too few arguments to logger :write. 1 expected but got 0.")
+	}
 	out := s.Get("out")
 	if w, ok := out.(io.Writer); ok {
 		var message slip.String
